@@ -149,4 +149,48 @@ def check(F, R, Gm, tier="quick"):
         wf = L.well_formed()
         missing = [m for m in must if m not in L.vars]
         R.ob("WELL-FORMED-SRC", key, wf is None and not missing, where, "variables %s%s%s" % (L.vars, ("; missing %s" % missing) if missing else "", ("; " + wf) if wf else ""))
+    # ---- collisions: a user declaration spelled like a generated auxiliary (used in a row, or never used)
+    bases = [
+        ("exact abs", "max abs { x - 3 } + y", ["x + y <= 6"], ["x as Real(-5, 5)", "y as Real(0, 9)"]),
+        ("exact max", "min x + y", ["max { x, y } = 4"], ["x, y as Real(0, 9)"]),
+        ("exact min", "max x + y", ["min { x, 2 * y } = 1"], ["x, y as Real(0, 9)"]),
+        ("logic value", "min p + q + y", ["y >= (p or q)", "p + q >= 1"], ["p, q as Boolean", "y as NonNegativeReal(0, 3)"]),
+        ("logic assertion", "min p + q + r", ["(p and q) or r"], ["p, q, r as Boolean"]),
+    ]
+    n_aux = 0
+    for label, obj, cons, define in bases:
+        key0 = "collision:" + label.replace(" ", "-")
+        st, v = compile_value(RT, P(obj, cons, define))
+        n += 1
+        if st != "ok":
+            R.undecided("WELL-FORMED-SRC", key0, where, "base program not compiled (%s: %r)" % (st, v))
+            continue
+        declared = set()
+        for d in define:
+            declared |= {t.strip() for t in d.split(" as ")[0].split(",")}
+        aux = [a for a in c01rt.Lin(v).vars if a not in declared]
+        if not aux:
+            R.undecided("WELL-FORMED-SRC", key0, where, "the base program compiles without auxiliaries: nothing to collide with")
+            continue
+        for a in aux[:3]:
+            n_aux += 1
+            for used in (False, True):
+                n += 1
+                key = "%s:%s:%s" % (key0, a, "used" if used else "unused")
+                st2, v2 = compile_value(RT, P(obj, cons + (["%s >= 3" % a] if used else []), define + ["%s as IntegerRange(3, 7)" % a]))
+                if st2 == "unknown":
+                    R.undecided("WELL-FORMED-SRC", key, where, v2)
+                    continue
+                if st2 == "noparse":
+                    R.undecided("WELL-FORMED-SRC", key, where, "the grammar does not accept the name %s in a declaration: %s" % (a, v2))
+                    continue
+                if st2 != "ok":
+                    R.ob("WELL-FORMED-SRC", key, True, where, "a declaration named %s is refused (%s)" % (a, st2))
+                    continue
+                L2 = c01rt.Lin(v2)
+                dk = L2.dom.get(a)
+                ok = dk is None or (dk[0] == "IntegerRange" and len(dk[1]) == 2 and dk[1][0] >= 3 and dk[1][1] <= 7)
+                wf = L2.well_formed()
+                R.ob("WELL-FORMED-SRC", key, ok and wf is None, where, "the user declares %s as IntegerRange(3, 7) (%s); the compiled model has %s as %s%s: the name belongs to an auxiliary of the lowering" % (a, "used in a row" if used else "never used", a, dk, ("; " + wf) if wf else ""))
+    R.count("WELL-FORMED-SRC.auxiliary-names", n_aux)
     R.count("WELL-FORMED-SRC.programs", n)
